@@ -28,6 +28,10 @@ extern "C" void vf_thread_0() {
     if (fresh) { ref[k >> 6 & 1] |= 1ull << (k & 63); cnt++; }
     if (i % 3 == 2) { auto r2 = s->emplace(k); vf_check(!r2.second && *r2.first == k, 1); }      // re-insert: not a new element
   }
+#ifdef VF_COPY
+  Set cp(*s); Set* s = &cp;        // every check below looks at a COPY of the (grown) set
+  vf_check(::s->size() == cnt, 2);
+#endif
   vf_check(s->size() == cnt, 2);
   vf_check(s->empty() == (cnt == 0), 5);
   uint64_t seen[2] = {0, 0}; uint64_t it = 0;
